@@ -96,6 +96,29 @@ def base_trusted():
     ]
 
 
+def monoize(cases, seed):
+    """A share of the `pipe` / `time` cases is built with adjacent single-input operators applied on the
+    concrete operator types, no box in between (harness field `mono`, see harness/src/pipe.rs): the
+    pipeline text, the model and the expected output are unchanged."""
+    import random
+    from .pipegen import MONO_OPS
+
+    def adjacent(e):
+        if not isinstance(e, list) or not e:
+            return False
+        if (e[0] in MONO_OPS and isinstance(e[-1], list) and e[-1] and e[-1][0] in MONO_OPS
+                and isinstance(e[-1][-1], list)):
+            return True
+        return any(adjacent(x) for x in e[1:] if isinstance(x, list))
+
+    rng = random.Random(seed * 31 + 5)
+    for c in cases:
+        if c.suite in ("pipe", "time") and c.field("pipe") and not c.field("mono") \
+                and rng.random() < 0.25 and adjacent(c.field("pipe")[0]):
+            c.fields = [("mono", [str(rng.choice([1, 2]))])] + c.fields
+    return cases
+
+
 def run_property(prop, tier, seed, replay=None):
     t0 = time.time()
     pid = prop.pid
@@ -145,7 +168,7 @@ def run_property(prop, tier, seed, replay=None):
             from .case import parse_cases
             cases = parse_cases(open(replay).read())
         else:
-            cases = prop.corpus() + prop.cases(tier, seed)
+            cases = prop.corpus() + monoize(prop.cases(tier, seed), seed)
         # dedupe
         seen, uniq = set(), []
         for c in cases:
